@@ -185,6 +185,11 @@ class Output(BaseOutput):
             for var, conf in self.instance_variables.items():
                 v = nc.createVariable(var, conf["encoding"]["datatype"], instance_dim)
                 for att, value in conf["attributes"].items():
+                    # Units of a time variable refer to the reference time
+                    if isinstance(value, str) and "reference_time" in value:
+                        value = value.replace(
+                            "reference_time", str(self.timer.reference_time)
+                        )
                     setattr(v, att, value)
 
         if self.particle_variables is not None:
@@ -248,7 +253,7 @@ class Output(BaseOutput):
             for var in self.instance_variables:
                 if npid > 0:
                     self.nc.variables[var][self.local_record_count, :npid] = (
-                        dense_row(getattr(state, var)[alive], pid, npid)
+                        dense_row(self.instance_values(state, var)[alive], pid, npid)
                     )
         elif self.layout == "sparse":
             count = len(state)  # Present number of particles
@@ -256,7 +261,7 @@ class Output(BaseOutput):
             end = start + count
             self.nc.variables["particle_count"][self.local_record_count] = count
             for var in self.instance_variables:
-                self.nc.variables[var][start:end] = getattr(state, var)
+                self.nc.variables[var][start:end] = self.instance_values(state, var)
 
         # Compute and save lon, lat if requested
         if self.lonlat:
@@ -291,6 +296,14 @@ class Output(BaseOutput):
                 self.nc = self.create_netcdf()
                 self.local_instance_count = 0
                 self.local_record_count = 0
+
+    def instance_values(self, state: State, var: str) -> np.ndarray:
+        """Values of an instance variable as written, time relative to the reference time"""
+        values = getattr(state, var)
+        if values.dtype.kind == "M":
+            delta = values.astype("M8[s]") - self.timer.reference_time
+            values = delta / np.timedelta64(1, self.time_unit)
+        return values
 
     def write_particle_variables(self, state: State) -> None:
         """Write all output particle variables
